@@ -38,7 +38,22 @@ Inductive cstmt :=
 (** ** AST path *)
 Definition within (l a b : N) : bool := (a <=? l) && (l <=? b).
 
+(** a parametrize call carries an [indirect] keyword *)
+Definition has_indirect (e : expr) : bool :=
+  match e with
+  | ECall _ _ kws => existsb (fun kv => match kv with (Some a, _) => String.eqb a "indirect" | _ => false end) kws
+  | _ => false
+  end.
+
+(** since fix e3a98b7: a parametrize decorator is an argument list for fixture names only
+    when it has an [indirect] keyword *)
 Definition dec_ctx (l : N) (d : cdec) : option ctx :=
+  if within l (cd_start d) (cd_end d)
+  then if is_mark "usefixtures" (cd_expr d) then Some CUse
+       else if is_mark "parametrize" (cd_expr d) && has_indirect (cd_expr d) then Some CParam else None
+  else None.
+(** before the fix: every parametrize decorator *)
+Definition dec_ctx_old (l : N) (d : cdec) : option ctx :=
   if within l (cd_start d) (cd_end d)
   then if is_mark "usefixtures" (cd_expr d) then Some CUse
        else if is_mark "parametrize" (cd_expr d) then Some CParam else None
